@@ -1,6 +1,6 @@
 #!/bin/sh
 # Builds the C harness against /repo's current working tree.
-#   build_harness.sh <variant>     variant: asan | be | tsan
+#   build_harness.sh <variant>     variant: asan | be | tsan | wrap | wrapbe (WRAP="sym ...")
 # The binary is cached under /verif/.cache/harness/<variant>-<hash of sources>/harness; prints its path.
 set -e
 V=$(cd "$(dirname "$0")/.." && pwd)
@@ -19,6 +19,7 @@ if [ ! -x $DIR/harness ]; then
     be)   SAN="-fsanitize=address,undefined -fno-sanitize-recover=all"; EXTRA="-D__sparc" ;;
     tsan) SAN="-fsanitize=thread"; EXTRA="" ;;
     wrap) SAN="-fsanitize=address,undefined -fno-sanitize-recover=all"; EXTRA="" ;;
+    wrapbe) SAN="-fsanitize=address,undefined -fno-sanitize-recover=all"; EXTRA="-D__sparc" ;;
   esac
   # hooks guard (no hook commits exist; the define documents the convention)
   CF="-g -O1 -w -DSBDF_VERIF $SAN $EXTRA -I$REPO/include -I$REPO/src"
